@@ -16,6 +16,8 @@
 //!  F|FONT|op;op;...|probe        history on a real Font (fixture path under tests/fonts, or syn:GSUBSPEC), judged
 //!        output  D1 D2           digest of the probe after the history / on a fresh Font (same configuration)
 //!  P|what|FONT|args              pure operation run twice in-process (P2: second run in a child process)
+//!        what = subset | instance | decode (every table) | tags (provider.table_tags()) | whole (whole_font, sorted
+//!               tags) | wholeu (whole_font with the tags in the order table_tags reports them)
 //!        output  D1 D2
 //! GSUBSPEC = FEATURES!SCRIPTS!FVRECORDS!NLOOKUPS!NAXES      (tags are decimal u32; `_` = empty list)
 //!   FEATURES  = tag/l.l.l , ...
@@ -984,6 +986,15 @@ fn pure_once(what: &str, fontname: &str, args: &str) -> String {
                 }
                 format!("ok:{}:{}", sorted.len(), dig(&h))
             }
+            "tags" => format!("ok:{:?}", provider.table_tags()),
+            "wholeu" => {
+                // the natural use: hand whole_font the tags in the order the provider reports them
+                let tags = provider.table_tags().unwrap_or_default();
+                match subset::whole_font(&provider, &tags) {
+                    Ok(b) => format!("ok:{}:{:016x}", b.len(), fnv(&b)),
+                    Err(e) => format!("err:{:?}", e),
+                }
+            }
             "whole" => {
                 let mut tags = provider.table_tags().unwrap_or_default();
                 tags.sort();
@@ -1481,7 +1492,7 @@ fn gen_p(rng: &mut Rng) -> String {
             let cs: Vec<i32> = (0..n).map(|_| (rng.range(-200, 1000) as i32) << 16).collect();
             format!("{}|instance|{}|{}", kind, f, slist(&cs))
         }
-        _ => format!("{}|{}|{}|_", kind, rng.pick(&["decode", "decode", "whole"]), rng.pick(DECODE_FONTS)),
+        _ => format!("{}|{}|{}|_", kind, rng.pick(&["decode", "decode", "whole", "wholeu", "tags"]), rng.pick(DECODE_FONTS)),
     }
 }
 
